@@ -30,7 +30,10 @@ def gen_main(ctx, n, **kw):
     big = ctx.tier == 'thorough'
     for i in range(n):
         r = ctx.rng.random()
-        if r < 0.15:
+        if r < 0.07 and 'use_internal' not in kw:
+            # species trees with unary nodes (names from the tree: synthesised names repeat at a unary node)
+            c = gen.gen_case(ctx.rng, max_leaves=8, unary=True, use_internal=True, **kw)
+        elif r < 0.15:
             c = gen.gen_case(ctx.rng, max_leaves=4, **kw)
         elif r < 0.85 or not big:
             c = gen.gen_case(ctx.rng, max_leaves=10, **kw)
@@ -2222,7 +2225,6 @@ def check_C13(ctx):
     # species trees with unary nodes (names must come from the tree: synthesised names repeat at a unary node)
     unary_cases = [gen.gen_case(ctx.rng, max_leaves=8, unary=True, use_internal=True, p_og_attr=0.3, tag='unary')
                    for _ in range(ctx.scale(20, 150))]
-    unary_ids = set(id(c) for c in unary_cases)
     cases = cases + [c for c in unary_cases if c.consistent]
     work = tempfile.mkdtemp(prefix='c13_', dir=os.path.join(core.VERIF, '.work') if os.path.isdir(os.path.join(core.VERIF, '.work')) else None)
     try:
@@ -2257,7 +2259,7 @@ def check_C13(ctx):
             xmls = [('string', c.xml(), True), ('string-one-chunk', c.xml(one_line=True), True), ('file', xf, False),
                     ('file-one-line', xf1, False), ('gzip', xgz, False)]
             for tf, tv, tk in trees:
-                for ui in ((True,) if id(c) in unary_ids else (True, False)):
+                for ui in ((True,) if any(len(n_.kids) == 1 for n_ in c.tree.nodes()) else (True, False)):
                     for xn, xv, as_str in xmls:
                         for prog in (False, True):
                             configs.append((tf, tv, tk, ui, xn, xv, as_str, prog))
